@@ -215,3 +215,276 @@ func divisorField(y ssa.Value) (string, bool) {
 	}
 	return "", false
 }
+
+// ---- K12 const-index guard ----
+
+// lenLB returns a proven lower bound of len(v) for a slice (or pointer-to-array)
+// value, or -1 when nothing is known. Field-held buffers take the minimum over
+// all stores to the field in the repository (nil stores are ignored: the
+// allocation-before-use order is a separate obligation).
+func (c *Ctx) lenLB(v ssa.Value, depth int) int64 {
+	if depth > 6 {
+		return -1
+	}
+	switch x := v.(type) {
+	case *ssa.Slice:
+		var xl int64 = -1
+		if pt, ok := x.X.Type().Underlying().(*types.Pointer); ok {
+			if at, ok := pt.Elem().Underlying().(*types.Array); ok {
+				xl = at.Len()
+			}
+		} else {
+			xl = c.lenLB(x.X, depth+1)
+		}
+		low := int64(0)
+		if x.Low != nil {
+			k, ok := constInt(x.Low)
+			if !ok {
+				// x[len(x)-k:] holds exactly k bytes (when len(x) >= k, decided at the slice itself)
+				if k2, ok2 := c.lenMinus(x.Low, x.X); ok2 && x.High == nil && xl >= k2 {
+					return k2
+				}
+				return -1
+			}
+			low = k
+		}
+		if x.High != nil {
+			if h, ok := constInt(x.High); ok {
+				if xl >= 0 && h > xl {
+					return -1 // out of range: reported at the slice itself
+				}
+				return h - low
+			}
+			if k, ok := c.lenMinus(x.High, x.X); ok && xl >= k {
+				return xl - k - low
+			}
+			return -1
+		}
+		if xl < 0 {
+			return -1
+		}
+		return xl - low
+	case *ssa.MakeSlice:
+		return sumConstLB(x.Len)
+	case *ssa.UnOp:
+		if x.Op != token.MUL {
+			return -1
+		}
+		fa, ok := x.X.(*ssa.FieldAddr)
+		if !ok {
+			return -1
+		}
+		fp := fieldPathOf(fa)
+		best := int64(-1)
+		n := 0
+		for _, fn := range c.P.SrcFuncs() {
+			for _, b := range fn.Blocks {
+				for _, in := range b.Instrs {
+					st, ok := in.(*ssa.Store)
+					if !ok {
+						continue
+					}
+					sfa, ok := st.Addr.(*ssa.FieldAddr)
+					if !ok || fieldPathOf(sfa) != fp {
+						continue
+					}
+					if isNilConst(st.Val) {
+						continue
+					}
+					n++
+					l := c.lenLB(st.Val, depth+1)
+					if l < 0 {
+						return -1
+					}
+					if best < 0 || l < best {
+						best = l
+					}
+				}
+			}
+		}
+		if n == 0 {
+			return -1
+		}
+		return best
+	}
+	return -1
+}
+
+func constInt(v ssa.Value) (int64, bool) {
+	k, ok := v.(*ssa.Const)
+	if !ok || k.Value == nil || k.Value.Kind() != constant.Int {
+		return 0, false
+	}
+	n, exact := constant.Int64Val(k.Value)
+	return n, exact
+}
+
+// sumConstLB: lower bound of an unsigned sum expression = the sum of its constant terms.
+func sumConstLB(v ssa.Value) int64 {
+	v = stripConv(v)
+	if k, ok := constInt(v); ok {
+		return k
+	}
+	if b, ok := v.(*ssa.BinOp); ok && b.Op == token.ADD {
+		l, r := sumConstLB(b.X), sumConstLB(b.Y)
+		if l < 0 || r < 0 {
+			return -1
+		}
+		return l + r
+	}
+	if unsignedOrigin(v) {
+		return 0
+	}
+	return -1
+}
+
+// lenMinus recognises len(base) - k.
+func (c *Ctx) lenMinus(v ssa.Value, base ssa.Value) (int64, bool) {
+	b, ok := v.(*ssa.BinOp)
+	if !ok || b.Op != token.SUB {
+		return 0, false
+	}
+	k, ok := constInt(b.Y)
+	if !ok {
+		return 0, false
+	}
+	call, ok := b.X.(*ssa.Call)
+	if !ok {
+		return 0, false
+	}
+	if bi, ok := call.Call.Value.(*ssa.Builtin); !ok || bi.Name() != "len" || len(call.Call.Args) != 1 {
+		return 0, false
+	}
+	if c.P.Render(call.Call.Args[0]) != c.P.Render(base) {
+		return 0, false
+	}
+	return k, true
+}
+
+// constIndexGuards (K12): in the listed decoder functions every slice
+// expression, constant index and fixed-width big/little-endian access on a
+// buffer is within the buffer's proven minimum length.
+func (c *Ctx) constIndexGuards(prefix string, funcs []string, min int) {
+	p := c.P
+	rule := "K12 IndexGuard (constant offsets vs proven buffer length)"
+	why := "arbitrary bytes never cause a panic: an offset beyond the buffer is an index-out-of-range panic on the first file that reaches it"
+	width := map[string]int64{"Uint16": 2, "Uint32": 4, "Uint64": 8, "PutUint16": 2, "PutUint32": 4, "PutUint64": 8}
+	total := 0
+	for _, name := range funcs {
+		fn := c.F(name)
+		short := name[strings.LastIndex(name, "litefs.")+7:]
+		key := prefix + "/" + short
+		desc := "every constant offset into a decoder buffer of " + short + " lies within the buffer"
+		if !c.need(key, rule, desc, fn, name) {
+			continue
+		}
+		n, bad := 0, ""
+		for _, b := range fn.Blocks {
+			for _, in := range b.Instrs {
+				switch x := in.(type) {
+				case *ssa.Slice:
+					var xl int64 = -1
+					if pt, ok := x.X.Type().Underlying().(*types.Pointer); ok {
+						if at, ok := pt.Elem().Underlying().(*types.Array); ok {
+							xl = at.Len()
+						}
+					} else if _, isStr := x.X.Type().Underlying().(*types.Basic); isStr {
+						continue
+					} else {
+						xl = c.lenLB(x.X, 0)
+					}
+					n++
+					need := int64(0)
+					if x.Low != nil {
+						if k, ok := constInt(x.Low); ok {
+							need = k
+						} else if k, ok := c.lenMinus(x.Low, x.X); ok {
+							need = k
+						} else {
+							bad = fmt.Sprintf("slice at %s has a low bound that is neither constant nor len-k: %s", c.where(in), p.Render(x.Low))
+							continue
+						}
+					}
+					if x.High != nil {
+						if h, ok := constInt(x.High); ok {
+							if h > need {
+								need = h
+							}
+						} else if k, ok := c.lenMinus(x.High, x.X); ok {
+							// low <= len-k  <=>  len >= low+k
+							need += k
+						} else if ex, ok := x.High.(*ssa.Extract); ok && ex.Index == 0 && isReadFullInto(p, ex.Tuple, x.X) {
+							// n returned by io.ReadFull(r, buf) is <= len(buf)
+						} else {
+							bad = fmt.Sprintf("slice at %s has a high bound that is neither constant nor len-k: %s", c.where(in), p.Render(x.High))
+							continue
+						}
+					}
+					if xl < need {
+						bad = fmt.Sprintf("slice %s at %s needs %d bytes, the buffer is only proven to hold %d", p.Render(x), c.where(in), need, xl)
+					}
+				case *ssa.IndexAddr:
+					k, ok := constInt(x.Index)
+					if !ok {
+						continue // dynamic index: loop-bounded, not a constant offset
+					}
+					var xl int64
+					if pt, ok := x.X.Type().Underlying().(*types.Pointer); ok {
+						at, _ := pt.Elem().Underlying().(*types.Array)
+						if at == nil {
+							continue
+						}
+						xl = at.Len()
+					} else {
+						xl = c.lenLB(x.X, 0)
+					}
+					n++
+					if k >= xl {
+						bad = fmt.Sprintf("index %d at %s, the buffer is only proven to hold %d", k, c.where(in), xl)
+					}
+				case *ssa.Call:
+					cn := p.CalleeName(&x.Call)
+					if !strings.HasPrefix(cn, "encoding/binary.") {
+						continue
+					}
+					w, ok := width[cn[strings.LastIndex(cn, ".")+1:]]
+					if !ok {
+						continue
+					}
+					vals := callVals(x)
+					if len(vals) < 2 {
+						continue
+					}
+					n++
+					if l := c.lenLB(vals[1], 0); l < w {
+						bad = fmt.Sprintf("%s at %s reads/writes %d bytes of %s, which is only proven to hold %d", cn, c.where(in), w, p.Render(vals[1]), l)
+					}
+				}
+			}
+		}
+		total += n
+		if bad != "" {
+			c.fail(key, rule, desc, why, bad, n)
+		} else if n == 0 {
+			c.fail(key, rule, desc, why, "no buffer access found in "+name, 0)
+		} else {
+			c.ok(key, rule, desc, n)
+		}
+	}
+	if total < min {
+		c.fail(prefix+"/sites", rule, "number of decided buffer accesses", why, fmt.Sprintf("only %d accesses decided, expected >= %d", total, min), total)
+	}
+}
+
+// isReadFullInto: t is a call io.ReadFull(_, buf) (or internal.ReadFullAt(_, buf, _)) with buf == base.
+func isReadFullInto(p *Prog, t ssa.Value, base ssa.Value) bool {
+	call, ok := t.(*ssa.Call)
+	if !ok {
+		return false
+	}
+	n := p.CalleeName(&call.Call)
+	if n != "io.ReadFull" && n != "internal.ReadFullAt" {
+		return false
+	}
+	return len(call.Call.Args) >= 2 && p.Render(call.Call.Args[1]) == p.Render(base)
+}
